@@ -512,6 +512,15 @@ impl Check for C10 {
                 cases.push((Damage::Truncate(t), format!("truncate@{}", t)));
             }
         }
+        // a stream cut at a record boundary and padded with NUL bytes (tape / block padding after a lost tail)
+        for (ri, r) in recs.iter().enumerate() {
+            if ri == 0 || (!(small || thorough) && recs.len() > 64 && ri % 16 != 0) {
+                continue;
+            }
+            for n in [2usize, 4, 6, 8, 2048 - (r.at % 2048)] {
+                cases.push((Damage::PrefixPlusRandom(r.at, vec![0u8; n]), format!("cut-before-record#{}+{}-NUL-bytes", ri, n)));
+            }
+        }
         // foreign records for splicing: from the first corpus image and a generated one
         let mut foreign: Vec<Vec<u8>> = Vec::new();
         if let Ok(fr) = gdsref::scan(CORPUS[0].1, false) {
